@@ -183,6 +183,12 @@ pub fn garbage_specs(th: bool) -> Vec<ExpSpec> {
             v.push(ExpSpec::new(c, garbage_alphabet(), if th { 5 } else { 4 }));
         }
     }
+    // used media with sectors larger than 512 bytes (a zero-fill that counts in 512-byte units leaves a stale tail)
+    for (ft, bps, spc) in [(FatType::Fat12, 1024u16, 1u32), (FatType::Fat16, 4096, 1), (FatType::Fat32, 1024, 2)] {
+        if let Some(c) = garbage_cfg(ft, bps, spc) {
+            v.push(ExpSpec::new(c, garbage_alphabet(), if th { 3 } else { 2 }));
+        }
+    }
     v
 }
 
@@ -245,6 +251,45 @@ pub fn specs(tier: &str, _prop: &str) -> Vec<ExpSpec> {
     v.extend(fragmented_dir_specs(th));
     v.extend(full_dir_specs(th));
     v.extend(dot_target_specs(th));
+    v.extend(dot_path_specs(th));
+    v
+}
+
+/// paths that run through a ".." entry (the directory object reached that way wraps the child's ".." slot), with a
+/// fixed and with an advancing clock
+pub fn dot_path_specs(th: bool) -> Vec<ExpSpec> {
+    use harness::sess::DirRef;
+    let r = DirRef::Root;
+    let s = |x: &str| x.to_string();
+    let mut v = Vec::new();
+    for ft in [FatType::Fat12, FatType::Fat32] {
+        for ticking in [false, true] {
+            let mut c = vol::tiny_with(ft, 8, 16);
+            c.name = format!("{}-dotpath{}", c.name, if ticking { "-clock" } else { "" });
+            c.ticking = ticking;
+            c.atime = ticking;
+            let prefix = vec![
+                Op::CreateDir { base: r, path: s("d"), keep: None },
+                Op::CreateDir { base: r, path: s("d/e"), keep: None },
+                Op::CreateDir { base: r, path: s("k"), keep: None },
+            ];
+            let alphabet = vec![
+                Op::Rename { base: r, src: s("d/e/../e"), dst_base: r, dst: s("x") },
+                Op::Rename { base: r, src: s("d/e/../e"), dst_base: r, dst: s("k/y") },
+                Op::Remove { base: r, path: s("d/e/../e") },
+                Op::CreateFile { base: r, path: s("d/e/../f"), keep: None },
+                Op::CreateDir { base: r, path: s("d/e/../g"), keep: None },
+                Op::OpenDir { base: r, path: s("d/e/.."), keep: Some(0) },
+                Op::Rename { base: r, src: s("d/e"), dst_base: r, dst: s("k/z") },
+                Op::CreateFile { base: DirRef::H(0), path: s("via-handle"), keep: None },
+                Op::List { base: DirRef::H(0), path: s("") },
+                Op::DropDir { d: 0 },
+                Op::List { base: r, path: s("d") },
+                Op::Remount,
+            ];
+            v.push(ExpSpec::new(c, alphabet, if th { 4 } else { 3 }).with_prefix(prefix));
+        }
+    }
     v
 }
 
